@@ -95,13 +95,25 @@ fn format_standard(value: f64) -> String {
     add_thousand_separators(&formatted)
 }
 
+/// floor(log10(x)) for a finite x > 0. `log10` alone rounds up to the next integer for
+/// values a few ulps below a power of ten (999999.9999999986_f64.log10() == 6.0), which
+/// would drop one significant digit.
+fn decimal_exponent(abs_value: f64) -> i32 {
+    let exponent = abs_value.log10().floor() as i32;
+    if 10_f64.powi(exponent) > abs_value {
+        exponent - 1
+    } else {
+        exponent
+    }
+}
+
 /// Round a number to n significant figures
 fn round_to_significant_figures(value: f64, sig_figs: u32) -> f64 {
     if value == 0.0 {
         return 0.0;
     }
 
-    let magnitude = value.abs().log10().floor() as i32;
+    let magnitude = decimal_exponent(value.abs());
     let scale = 10_f64.powi(sig_figs as i32 - 1 - magnitude);
     (value * scale).round() / scale
 }
@@ -111,10 +123,10 @@ fn format_float_significant(value: f64, max_sig_figs: usize) -> String {
     // Determine how many decimal places we need
     let abs_value = value.abs();
     let magnitude = if abs_value >= 1.0 {
-        abs_value.log10().floor() as i32 + 1
+        decimal_exponent(abs_value) + 1
     } else {
         // For numbers < 1, count leading zeros
-        -(abs_value.log10().floor() as i32)
+        -decimal_exponent(abs_value)
     };
 
     // Calculate decimal places needed for significant figures
